@@ -249,6 +249,7 @@ pub fn run(ctx: &Ctx) -> Result<Evidence, String> {
                 Death::CpuTimeout(s) => ctx.violate(&format!("[{} build] evaluation did not terminate: {:.0} CPU-seconds used for {} (the reference needs microseconds)", profile, s, d["query"]), d),
                 Death::Signal(sig, tail) => ctx.violate(&format!("[{} build] worker killed by signal {} while evaluating {}: {}", profile, sig, d["query"], tail.chars().rev().take(300).collect::<String>().chars().rev().collect::<String>()), d),
                 Death::Exit(code, tail) => ctx.violate(&format!("[{} build] worker exited with {} while evaluating {}: {}", profile, code, d["query"], tail.chars().rev().take(300).collect::<String>().chars().rev().collect::<String>()), d),
+                Death::Stalled(s) => ctx.violate(&format!("[{} build] evaluation of {} blocked: no CPU time used for {:.0} s and no return (deadlock)", profile, d["query"], s), d),
                 Death::WallTimeout => ctx.add_inconclusive("wall-clock watchdog", 1),
             }
         });
